@@ -53,16 +53,21 @@ pub fn gen(seed: u64, idx: usize, thorough: bool) -> BlockCase {
     match cb { Some(c) => code.push(c), None => { if b0 == 0x10 { code.push(0) } else { for _ in 1..op_len(b0) { code.push(byte(&mut rng)); } } } }
     if !is_term(b0) { code.push(0x76); }
   } else {
-    // straight-line block of 1..N ops ending in each kind of terminator
+    // straight-line block of 1..N ops ending in each kind of terminator; one case in twenty is a long run of one
+    // single-byte instruction (lengths around the 8-bit boundaries of anything that counts instructions or bytes)
     let n = 1 + rng.below(if thorough { 24 } else { 10 }) as usize;
-    for _ in 0..n {
+    if idx % 20 == 7 {
+      let b0 = *rng.pick(&[0x00u8, 0x04, 0x0c, 0x3c, 0x87, 0x2c, 0x00]);
+      let k = *rng.pick(&[126usize, 127, 128, 129, 200, 255, 256, 257, 300, 511, 512, 1000]);
+      for _ in 0..k { code.push(b0); }
+    } else { for _ in 0..n {
       loop {
         let b0 = rng.u8();
         if UNDEF.contains(&b0) || is_term(b0) { continue; }
         push_op(&mut code, b0, &mut rng);
         break;
       }
-    }
+    } }
     let t = TERMS[(idx - n_enc * per) % TERMS.len()];
     push_op(&mut code, t, &mut rng);
   }
